@@ -816,4 +816,102 @@ theorem opRequest_data (P : SProto Q) (hP : Laws P.toProto) (s : Sys Q) (es : Li
         · cases h
       all_goals (split at h <;> (try split at h) <;> cases h)
 
+/-- `d` is the payload of a message completely received on connection number `idx` -/
+def FromConn (P : SProto Q) (idx : Nat) (d : Bytes) : Prop :=
+  ∃ (c : PConn Q) (pes : List PEv), c.idx = idx ∧ d ∈ P.payloads (pes.foldl (connPeer P) c).q
+
+theorem rd_conn {P : SProto Q} (hP : Laws P.toProto) {s : Sys Q} {es : List SEv} {tmo : Option Nat} {r : PRes} {s1 : Sys Q}
+    {es1 : List SEv} (h : opRead P s es tmo = (r, s1, es1)) :
+    s1.conn.idx = s.conn.idx ∧ s1.nconn = s.nconn ∧ (∀ d, r = .data d → FromConn P s.conn.idx d) := by
+  have hi := opRead_idx P s es tmo
+  rw [h] at hi
+  refine ⟨hi.1, hi.2, ?_⟩
+  intro d hd
+  obtain ⟨pes, hp⟩ := opRead_data P hP s es tmo d (by rw [h]; exact hd)
+  exact ⟨s.conn, pes, rfl, hp⟩
+
+theorem pendLoop_conn (P : SProto Q) (hP : Laws P.toProto) (cls : Bytes → Ev) (lim : Limits) (mnt : Nat) (s : Sys Q)
+    (es : List SEv) (np nt : Nat) :
+    (pendLoop P cls lim mnt s es np nt).sys.conn.idx = s.conn.idx ∧
+    (pendLoop P cls lim mnt s es np nt).sys.nconn = s.nconn ∧
+    (∀ d s' es', pendLoop P cls lim mnt s es np nt = .done (.reply d) s' es' → FromConn P s.conn.idx d) := by
+  fun_induction pendLoop P cls lim mnt s es np nt
+  case case2 s es np nt s1 es1 heq h ih =>
+    obtain ⟨h1, h2, h3⟩ := rd_conn hP heq
+    obtain ⟨i1, i2, i3⟩ := ih
+    exact ⟨by rw [i1, h1], by rw [i2, h2], by rw [← h1]; exact i3⟩
+  case case7 s es np nt d s1 es1 hd heq hcls h ih =>
+    obtain ⟨h1, h2, h3⟩ := rd_conn hP heq
+    obtain ⟨i1, i2, i3⟩ := ih
+    exact ⟨by rw [i1, h1], by rw [i2, h2], by rw [← h1]; exact i3⟩
+  all_goals
+    obtain ⟨h1, h2, h3⟩ := rd_conn hP ‹opRead P _ _ (some lim.waiting) = _›
+    refine ⟨h1, h2, ?_⟩
+    intro d' s' es' hc
+    first
+    | (cases hc; exact h3 _ rfl)
+    | cases hc
+
+theorem sleep_idx (P : SProto Q) (ms : Nat) (s : Sys Q) (es : List SEv) :
+    (sleep P ms s es).1.conn.idx = s.conn.idx ∧ (sleep P ms s es).1.nconn = s.nconn := by
+  unfold sleep; exact await_idx ..
+
+theorem backoff_idx (P : SProto Q) (lim : Limits) (retry : Bool) (i : Nat) (s : Sys Q) (es : List SEv) :
+    (backoff P lim retry i s es).1.conn.idx = s.conn.idx ∧ (backoff P lim retry i s es).1.nconn = s.nconn := by
+  unfold backoff; split
+  · exact sleep_idx ..
+  · exact ⟨rfl, rfl⟩
+
+/-- a connection the transport has just opened: the newest one, nothing received on it yet -/
+def Fresh (P : SProto Q) (s0 s1 : Sys Q) : Prop :=
+  s1.conn.idx + 1 = s1.nconn ∧ s0.nconn < s1.nconn ∧ s1.conn.q = P.parse [] ∧ s1.conn.rem = []
+
+theorem doipPoll_conn (P : SProto Q) (wend : Nat) (fuel : Nat) (s : Sys Q) (es : List SEv) :
+    ((doipPoll P wend fuel s es).1 = .ok → Fresh P s (doipPoll P wend fuel s es).2.1) ∧
+    ((doipPoll P wend fuel s es).1 ≠ .ok → (doipPoll P wend fuel s es).2.1.conn.idx = s.conn.idx) ∧
+    s.nconn ≤ (doipPoll P wend fuel s es).2.1.nconn := by
+  induction fuel generalizing s es with
+  | zero => simp [doipPoll]
+  | succ n ih =>
+    unfold doipPoll
+    split
+    · simp
+    · split
+      · simp only
+        split
+        · simp [Fresh, accept, PConn.fresh]
+        · have a1 := await_idx P (fun x => x.conn.closed || x.conn.streamEnded)
+            (some (min ((accept P s).now + Doip.raTimeoutMs) wend)) (accept P s) es
+          generalize await P (fun x => x.conn.closed || x.conn.streamEnded) _ (accept P s) es = r1 at a1 ⊢
+          have hacc : (accept P s).nconn = s.nconn + 1 := rfl
+          split
+          · refine ⟨by simp, by simp, ?_⟩
+            simp only; omega
+          · have a2 := await_idx P (fun _ => false) (some (min (r1.2.1.now + pollStep) wend))
+              { r1.2.1 with conn := s.conn } r1.2.2
+            generalize await P (fun _ => false) _ { r1.2.1 with conn := s.conn } r1.2.2 = r2 at a2 ⊢
+            obtain ⟨i1, i2, i3⟩ := ih r2.2.1 r2.2.2
+            simp only at a2
+            refine ⟨fun h => ?_, fun h => by rw [i2 h, a2.1], by omega⟩
+            obtain ⟨f1, f2, f3, f4⟩ := i1 h
+            exact ⟨f1, by omega, f3, f4⟩
+      · have a2 := await_idx P (fun _ => false) (some (min (s.now + pollStep) wend)) (refuse s) es
+        generalize await P (fun _ => false) _ (refuse s) es = r2 at a2 ⊢
+        dsimp only
+        obtain ⟨i1, i2, i3⟩ := ih r2.2.1 r2.2.2
+        have hr : (refuse s).nconn = s.nconn ∧ (refuse s).conn = s.conn := ⟨rfl, rfl⟩
+        refine ⟨fun h => ?_, fun h => by rw [i2 h, a2.1, hr.2], by omega⟩
+        obtain ⟨f1, f2, f3, f4⟩ := i1 h
+        exact ⟨f1, by omega, f3, f4⟩
+
+theorem reconnect_conn (P : SProto Q) (s : Sys Q) (es : List SEv) :
+    ((reconnect P s es).1 = .ok → Fresh P s (reconnect P s es).2.1) ∧
+    ((reconnect P s es).1 ≠ .ok → (reconnect P s es).2.1.conn.idx = s.conn.idx) := by
+  unfold reconnect
+  simp only
+  split
+  · have := doipPoll_conn P ((closeConn s).now + doipWindow) (doipWindow / pollStep + 1) (closeConn s) es
+    exact ⟨this.1, this.2.1⟩
+  · split <;> simp [Fresh, accept, refuse, closeConn, PConn.fresh]
+
 end Gallia.LossSys
